@@ -124,3 +124,26 @@ class Result:
                 'violations': self.violations, 'samples': self.samples, 'extra': self.extra,
                 'states': self.states, 'transitions': self.transitions, 'traces': self.traces,
                 'outcomes': sorted(self.outcomes)}
+
+
+def run_sequence(run_one, shard):
+    """A shard that is a *sequence* of sub-shards executed in one process, in order: module-level state shared by all
+    algebras (a cache keyed by blade pairs or by dimension only) makes results depend on which algebras were used
+    before, so algebras of equal dimension and different metric are visited one after the other, in two orders."""
+    tot = None
+    for sub in shard['seq']:
+        out = run_one(sub)
+        if tot is None:
+            tot = out
+        else:
+            for k in ('evals', 'nontrivial', 'skipped', 'states', 'transitions', 'traces'):
+                tot[k] = tot.get(k, 0) + out.get(k, 0)
+            tot['violations'] += out['violations']
+            for k, v in out.get('extra', {}).items():
+                if isinstance(v, (int, float)):
+                    tot['extra'][k] = tot['extra'].get(k, 0) + v
+    for v in tot['violations']:
+        v['case'] = {'shard': shard}
+        v['key'] = v['key'] + ':after-other-algebras'
+    # a violation that also occurs without the history is reported by the ordinary strata under its own key
+    return tot
